@@ -103,7 +103,8 @@ fn check_result(what: &str, a: &Desc, b: &Desc, out: &[u8], exp_files: &BTreeMap
 #[test]
 fn union_and_difference_of_all_small_pairs() {
     // file presence / variant choices per shard: a few representative columns per file to keep the product small
-    let file_opts: [&[Option<u8>]; 4] = [&[None, Some(0), Some(1), Some(2), Some(3)], &[None, Some(3)], &[None, Some(1)], &[None, Some(2)]];
+    // file 0 has one segment, file 1 two, file 2 three: the merge of complementary flag sets is exercised with 1 and 2 segments
+    let file_opts: [&[Option<u8>]; 4] = [&[None, Some(0), Some(1), Some(2), Some(3)], &[None, Some(3), Some(1), Some(2)], &[None, Some(1)], &[None, Some(2)]];
     let mut descs = Vec::new();
     for f0 in file_opts[0] {
         for f1 in file_opts[1] {
@@ -121,7 +122,7 @@ fn union_and_difference_of_all_small_pairs() {
     for (ia, a) in descs.iter().enumerate() {
         for (ib, b) in descs.iter().enumerate() {
             // all pairs for the first file's 5x5 variants, a thinner slice elsewhere
-            if (ia * 31 + ib * 17) % 3 != 0 && !(a.files[1..] == b.files[1..]) {
+            if (ia * 31 + ib * 17) % 5 != 0 && !(a.files[2..] == b.files[2..] && a.xorbs == b.xorbs) {
                 continue;
             }
             pairs += 1;
